@@ -13,6 +13,9 @@ import (
 
 	"github.com/AliceO2Group/Control/common/utils/uid"
 	"github.com/AliceO2Group/Control/core/environment"
+	"github.com/AliceO2Group/Control/core/integration"
+	"github.com/AliceO2Group/Control/core/integration/testplugin"
+	"github.com/spf13/viper"
 
 	"verif/harness/inproc"
 	"verif/harness/sim/consul"
@@ -41,8 +44,15 @@ type startObs struct {
 
 var startFaults = []string{"cas-answered-false", "cas-500", "cas-severed-before-apply", "cas-applied-then-severed", "get-500", "get-severed", "counter-unparsable", "none"}
 
-func runStartSide(c *vlib.Ctx, lo, hi int) {
-	ie, err := inproc.Setup(nil, nil)
+func runStartSide(c *vlib.Ctx, lo, hi, slo, shi int) {
+	// the test plugin must be known before anything instantiates the plugin registry
+	integration.RegisterPlugin("testplugin", "testPluginEndpoint", testplugin.NewPlugin)
+	viper.Set("integrationPlugins", []string{"testplugin"})
+	viper.Set("testPluginEndpoint", "http://127.0.0.1:1")
+	ie, err := inproc.Setup(map[string]string{
+		"workflows/empty.yaml":   "name: empty\nroles: []\n",
+		"workflows/c07hook.yaml": seqWorkflow,
+	}, nil)
 	if err != nil {
 		c.Inconclusive("inproc.Setup: " + err.Error())
 		return
@@ -213,6 +223,7 @@ func runStartSide(c *vlib.Ctx, lo, hi int) {
 		startCheckNumber(c, id, &ob, ob.RN1, ob.Counter1, given, i)
 	}
 	s.Plan = nil
+	runStartSequences(c, ie, given, slo, shi)
 }
 
 func startLog(s *consul.Server) []logLine {
